@@ -221,6 +221,36 @@ func init() {
 		}
 		return in.ts.Const(64, uint64(int64(v))), nil, true
 	})
+	rt("AssignIfMatches", func(in *Interp, s *State, c *callCtx) (Value, []*State, bool) {
+		cur, _ := c.args[0].(*Iface)
+		tgt, _ := c.args[1].(*Iface)
+		if tgt == nil || tgt.T == nil {
+			panic(goPanic{msg: "errors: target cannot be nil"})
+		}
+		pt, ok := tgt.T.Underlying().(*types.Pointer)
+		if !ok {
+			panic(goPanic{msg: "errors: target must be a non-nil pointer"})
+		}
+		elem := pt.Elem()
+		if cur == nil || cur.T == nil {
+			return in.ts.BoolC(false), nil, true
+		}
+		match := false
+		if types.IsInterface(elem) {
+			match = types.Implements(cur.T, elem.Underlying().(*types.Interface))
+		} else {
+			match = types.Identical(cur.T, elem)
+		}
+		if !match {
+			return in.ts.BoolC(false), nil, true
+		}
+		if types.IsInterface(elem) {
+			in.store(s, tgt.V.(*Ptr), cur)
+		} else {
+			in.store(s, tgt.V.(*Ptr), cur.V)
+		}
+		return in.ts.BoolC(true), nil, true
+	})
 	rt("LenAny", func(in *Interp, s *State, c *callCtx) (Value, []*State, bool) {
 		sl, ok := c.args[0].(*Iface).V.(*Slice)
 		if !ok {
